@@ -331,6 +331,19 @@ func (d *Datastore) lowlevelTransactionSet(ctx context.Context, transaction *typ
 		delSl := deletesOwner.StringSlice()
 		log.Debugf("Deletes Owner: %s \n%s", intent.GetName(), strings.Join(delSl, "\n"))
 
+		// if the priority of the intent changed, its old entries are keyed by the old priority
+		// in the intended store, so they need to be removed explicitly.
+		if oldIntent, exists := transaction.GetOldIntents()[intent.GetName()]; exists && len(oldIntent.GetUpdates()) > 0 && oldIntent.GetPriority() != intent.GetPriority() {
+			err = d.cacheClient.Modify(ctx, d.Name(), &cache.Opts{
+				Store:    cachepb.Store_INTENDED,
+				Owner:    intent.GetName(),
+				Priority: oldIntent.GetPriority(),
+			}, oldIntent.GetUpdates().ToPathSet().GetPaths().ToStringSlice(), nil)
+			if err != nil {
+				return nil, fmt.Errorf("failed updating the intended store for %s: %w", d.Name(), err)
+			}
+		}
+
 		// modify intended store per intent
 		err = d.cacheClient.Modify(ctx, d.Name(), &cache.Opts{
 			Store:    cachepb.Store_INTENDED,
